@@ -35,3 +35,19 @@ Example C04_witness : f64_encode (p_to_num 8 1 0x48) = 0x3ff8000000000000
   /\ f64_encode (p_to_num 8 0 0xc0) = 0xbff0000000000000 /\ f32_encode (Fin true (1#4)) = 0xbe800000
   /\ p_to_int 8 1 0x4c = Some 1 /\ f64_decode 0x7ff0000000000000 = Inf false.
 Proof. vm_compute. repeat split; reflexivity. Qed.
+
+(* ---- generated on every run from include/universal/native/subnormal.hpp (tools/gen_tables.py -> Tables.v): the scale tables that
+   cfloat / areal to_native multiply subnormal fractions with are, entry by entry, the model's subnormal scale 2^(1 - bias) =
+   2^(2 - 2^(es-1)) (checked by the kernel for every es the tables define: 1..11 for the double table, 1..20 for the shift table) ---- *)
+From Coq Require Import List Bool. Import ListNotations.
+From UV Require Import Tables.
+Definition subnormal_tables_ok : bool :=
+  forallb (fun es => match nth_error tbl_subnormal_exponent_log2 (Z.to_nat es) with
+                     | Some (Some v) => Z.eqb v (1 - CfloatSpec.bias es) | _ => false end)
+          [1; 2; 3; 4; 5; 6; 7; 8; 9; 10; 11] &&
+  forallb (fun es => match nth_error tbl_subnormal_reciprocal_shift (Z.to_nat es) with
+                     | Some v => Z.eqb (- v) (1 - CfloatSpec.bias es) | _ => false end)
+          [1; 2; 3; 4; 5; 6; 7; 8; 9; 10; 11; 12; 13; 14; 15; 16; 17; 18; 19; 20].
+Theorem C04_subnormal_scale_tables_match_model : subnormal_tables_ok = true.
+Proof. vm_compute. reflexivity. Qed.
+Print Assumptions C04_subnormal_scale_tables_match_model.
